@@ -2483,7 +2483,15 @@ impl<'a, B: Bindgen> Generator<'a, B> {
                 TypeDefKind::Resource => unreachable!(),
                 TypeDefKind::Unknown => unreachable!(),
 
-                TypeDefKind::FixedLengthList(..) => todo!(),
+                // The flat representation of a fixed-length list is the
+                // concatenation of its elements' flat representations.
+                TypeDefKind::FixedLengthList(element, size) => {
+                    self.flat_for_each_record_type(
+                        ty,
+                        iter::repeat_n(element, *size as usize),
+                        |me, ty| me.deallocate(ty, what),
+                    );
+                }
             },
         }
     }
@@ -2615,7 +2623,17 @@ impl<'a, B: Bindgen> Generator<'a, B> {
                 TypeDefKind::Future(_) => unreachable!(),
                 TypeDefKind::Stream(_) => unreachable!(),
                 TypeDefKind::Unknown => unreachable!(),
-                TypeDefKind::FixedLengthList(_, _) => {}
+
+                // Elements are stored inline, one after another, so each one
+                // is deallocated in place.
+                TypeDefKind::FixedLengthList(element, size) => {
+                    let elem_size = self.bindgen.sizes().size(element);
+                    for i in 0..*size as usize {
+                        let elem_offset =
+                            ArchitectureSize::new(elem_size.bytes * i, elem_size.pointers * i);
+                        self.deallocate_indirect(element, addr.clone(), offset + elem_offset, what);
+                    }
+                }
             },
         }
     }
